@@ -3,6 +3,8 @@ package c03
 
 import (
 	"bytes"
+	"context"
+	"errors"
 	"fmt"
 	"log/slog"
 	"runtime"
@@ -243,6 +245,97 @@ func TestWithEqualsCallSite(t *testing.T) {
 		ev.Label("withEq:" + lm.HandlerNames[st.kind])
 		ev.Case(ngroups > 0 || len(a) > 1, ev.Hash("witheq", st.String(), lm.RenderChain(ctxChain), lm.RenderNodes(a), lm.RenderNodes(b), msg), func() string {
 			return fmt.Sprintf("With≡call-site %s context=%s a=%s b=%s", st, lm.RenderChain(ctxChain), lm.RenderNodes(a), lm.RenderNodes(b))
+		})
+	})
+}
+
+// TestWithRawArgsEqualsCallSite: the same relation for raw argument lists as a caller may write them - a key followed
+// by an slog.Attr as its value, ready-made Attrs between pairs, values without a key, a dangling key at the end, nil.
+// No model of the rendering is needed: whatever the call site makes of the list, With must make the same of it.
+func TestWithRawArgsEqualsCallSite(t *testing.T) {
+	rt.Check(t, 2500, 150000, func(t *rapid.T) {
+		st := setup{kind: rapid.IntRange(0, 2).Draw(t, "handler"), colorful: false, addSource: false}
+		ctxChain := lm.GenChain(genOpts, 2).Draw(t, "context")
+		genValue := rapid.Custom(func(t *rapid.T) any {
+			switch rapid.IntRange(0, 7).Draw(t, "valueKind") {
+			case 0:
+				return lm.SmallString().Draw(t, "s")
+			case 1:
+				return rapid.Int64().Draw(t, "i")
+			case 2:
+				return rapid.Bool().Draw(t, "b")
+			case 3:
+				return nil
+			case 4:
+				return slog.Int("inner", rapid.IntRange(0, 9).Draw(t, "inner")) // an Attr in value position
+			case 5:
+				return slog.Group("g", slog.String("m", lm.SmallString().Draw(t, "m")))
+			case 6:
+				return errors.New("e" + lm.SmallString().Draw(t, "e"))
+			default:
+				return slog.StringValue(lm.SmallString().Draw(t, "sv"))
+			}
+		})
+		var args []any
+		var shape []string
+		n := rapid.IntRange(1, 5).Draw(t, "items")
+		for i := 0; i < n; i++ {
+			switch rapid.IntRange(0, 5).Draw(t, "item") {
+			case 0, 1:
+				args = append(args, lm.SmallString().Draw(t, "key"), genValue.Draw(t, "value"))
+				shape = append(shape, "pair")
+			case 2:
+				args = append(args, slog.String(lm.SmallString().Draw(t, "akey"), lm.SmallString().Draw(t, "aval")))
+				shape = append(shape, "attr")
+			case 3:
+				args = append(args, rapid.SampledFrom([]any{42, nil, 3.5, true, []int{1}}).Draw(t, "bare"))
+				shape = append(shape, "bareValue")
+			case 4:
+				args = append(args, "k"+lm.SmallString().Draw(t, "key2"), slog.Int("a", i))
+				shape = append(shape, "keyThenAttr")
+			default:
+				if i == n-1 {
+					args = append(args, "dangling"+lm.SmallString().Draw(t, "dk"))
+					shape = append(shape, "danglingKey")
+				}
+			}
+		}
+		if len(args) == 0 {
+			args = []any{"k", 1}
+			shape = []string{"pair"}
+		}
+		level := rapid.SampledFrom(lm.Levels).Draw(t, "level")
+		s1, s2 := &lm.Sink{}, &lm.Sink{}
+		l1 := lm.Derive(st.fresh(s1), ctxChain).With(args...)
+		l2 := lm.Derive(st.fresh(s2), ctxChain)
+		l1.Log(context.Background(), level, "m")
+		l2.Log(context.Background(), level, "m", args...)
+		if len(s1.Writes) != 1 || len(s2.Writes) != 1 {
+			t.Fatalf("writes: %d and %d", len(s1.Writes), len(s2.Writes))
+		}
+		w1, w2 := lm.MaskTime(st.kind, s1.Writes[0]), lm.MaskTime(st.kind, s2.Writes[0])
+		describe := func() string {
+			return fmt.Sprintf("setup: %s context=%s args=%#v\n  With(args).Log(): %s\n  Log(args...):     %s", st, lm.RenderChain(ctxChain), args, short(w1), short(w2))
+		}
+		if st.kind == lm.HJson {
+			j1, e1 := lm.DecodeOne(w1)
+			j2, e2 := lm.DecodeOne(w2)
+			if e1 != nil || e2 != nil {
+				t.Fatalf("line is not JSON (%v / %v)\n%s", e1, e2, describe())
+			}
+			n1, _ := stripEmptyObjects(j1)
+			n2, _ := stripEmptyObjects(j2)
+			if n1.String() != n2.String() {
+				t.Fatalf("With(args).Log() and Log(args...) differ (decoded, empty groups ignored)\n%s", describe())
+			}
+		} else if !bytes.Equal(w1, w2) {
+			t.Fatalf("With(args).Log() and Log(args...) differ\n%s", describe())
+		}
+		for _, sh := range shape {
+			ev.Label("rawargs:" + sh)
+		}
+		ev.Case(len(shape) > 1, ev.Hash("rawargs", st.String(), lm.RenderChain(ctxChain), fmt.Sprintf("%#v", args)), func() string {
+			return fmt.Sprintf("With≡call-site on raw args %s context=%s args=%#v", st, lm.RenderChain(ctxChain), args)
 		})
 	})
 }
